@@ -223,7 +223,7 @@ func cmdCheck(args []string) {
 	failK1ByFunc := map[string][]*Oblig{}
 	isKnown := func(name string) *knownFinding {
 		for i := range known {
-			if known[i].prop == *prop && known[i].oblig == name {
+			if known[i].prop == *prop && (known[i].oblig == name || known[i].oblig == stripReturnSuffix(name)) {
 				return &known[i]
 			}
 		}
